@@ -157,8 +157,9 @@ func (p *PropertySchema) validateCompatibilityIn(typeOrData any, compared compar
 		if err := validateCompatibilityIn(p.TypeValue, schemaType.TypeValue, compared); err != nil {
 			return err
 		}
-		if schemaType.Required() {
+		if schemaType.Required() && !schemaType.Disabled {
 			// A producer that always supplies the property can never be consumed by a schema that refuses every use of it.
+			// A producer whose own property is disabled never supplies it: a schema stays compatible with itself.
 			return p.disabledError()
 		}
 		return nil
